@@ -69,6 +69,8 @@ SubSeqFrom(s, i) == IF i > Len(s) THEN <<>> ELSE SubSeq(s, i, Len(s))
      k = "D": payload has marker of capture n (cdata:"MARKn;")  data feature
      k = "C": some converter output of the stream is cached (cdata:"CONV:", which only converter output contains)  data feature
      k = "L": last packet not before capture n (ltime)       absolute-time feature
+     k = "E": a payload filter on the output of a converter that does not exist (cdata.nope:"x"): the definition parses,
+              every evaluation of it fails; the tagging job then decides the tag with no matches     data feature
      k = "B": the client sent the markers of at least n captures (cbytes:..:)   byte counts belong to the data feature
      k = "I": id in s                    (id:..)             id-only feature
      k = "M": id in s, for mark/ and generated/ tags
@@ -80,9 +82,9 @@ Def(k, n, s, t) == [k |-> k, n |-> n, s |-> s, t |-> t]
 Refs(d)      == IF d.k \in {"R", "N", "S"} THEN {d.t} ELSE {}
 FeatSub(d)   == d.k = "S"                     \* SubQueryFeatures # 0: invalidated completely (manager.go:605)
 FeatIdOnly(d) == d.k \in {"I", "M"}            \* MainFeatures &^ FeatureFilterID = 0   (manager.go:608)
-FeatData(d)   == d.k \in {"D", "L", "C", "B"}            \* data | absolute time                  (manager.go:614)
+FeatData(d)   == d.k \in {"D", "L", "C", "B", "E"}            \* data | absolute time                  (manager.go:614)
 \* the kinds whose MainFeatures contain FeatureFilterData (payload and byte-count filters): reopened after conversions
-FeatPayload(d) == d.k \in {"D", "C", "B"}
+FeatPayload(d) == d.k \in {"D", "C", "B", "E"}
 FeatConvOK(d) == d.k \in {"P", "L", "I", "M"}  \* attachConverterToTag: no data filter, no tag reference
 IsMarkName(n) == \E i \in 1 .. Len(n) : SubSeq(n, 1, i) \in {"mark/", "generated/"}
 
@@ -95,6 +97,7 @@ Eval(d, id, conn, ver, tdM, vis, cvs) ==
       [] d.k = "C" -> cvs # {}                      \* only converter output contains "CONV:"
       [] d.k = "L" -> Max(ver) >= d.n
       [] d.k = "B" -> Cardinality(ver) >= d.n
+      [] d.k = "E" -> FALSE
       [] d.k \in {"I", "M"} -> id \in Range(d.s)
       [] d.k = "R" -> id \in tdM[d.t]
       [] d.k = "N" -> id \notin tdM[d.t]
@@ -445,7 +448,7 @@ Reaches(tg, from, to) ==          \* does tag `from` (transitively) reference `t
     \/ to \in Refs(tg[from].def)
     \/ \E r \in Refs(tg[from].def) \cap DOMAIN tg : Reaches(tg, r, to)
 
-DefValid(d) == d.k \in {"P", "D", "C", "L", "B", "I", "M", "R", "N", "S"}     \* the query parses and is allowed in a tag
+DefValid(d) == d.k \in {"P", "D", "C", "L", "B", "E", "I", "M", "R", "N", "S"}     \* the query parses and is allowed in a tag
 AddTagOK(name, d) ==
     /\ DefValid(d)
     /\ name \notin DOMAIN tags
